@@ -58,14 +58,14 @@ Loc(e) ==
      IN /\ e.found = 1
         /\ VEq(e.val, want)
         \* events recorded in-process carry everything; CLI observations ("via") may lack
-        \* val2 (one evaluator) and, for multi-document YAML streams, ao
+        \* val2 (one evaluator) and the position builtins ao / ap
         /\ ~Has(e, "via") => (Has(e, "val2") /\ Has(e, "ao") /\ Has(e, "ap"))
         /\ Has(e, "val2") => VEq(e.val2, want)
         /\ Has(e, "ao") => VEq(e.ao, AtOffsetValue(k))
         /\ json => /\ e.rs = k.s
                    /\ e.re = k.e
                    /\ LI!ToOffset(starts, len, e.ln, e.col) = e.off
-                   /\ Has(e, "ap") /\ VEq(e.ap, AtOffsetValue(k))
+                   /\ Has(e, "ap") => VEq(e.ap, AtOffsetValue(k))
   /\ last' = e.off
   /\ cnt' = cnt + 1
   /\ UNCHANGED <<tree, T, len, json, starts>>
